@@ -33,11 +33,11 @@ structure Undo (α : Type) where
 
 /-- swap physical rows `i` and `r`:  `for j: e = entry(i,j); entry(i,j) = entry(r,j); entry(r,j) = e` -/
 def swapRows {α : Type} (N : Nat) (m : Nat → α) (i r : Nat) : Nat → α :=
-  forUp N (fun j m => let e := m (i*N + j); fset (fset m (i*N + j) (m (r*N + j))) (r*N + j) e) m
+  forUp N (fun j m => fset (fset m (i*N + j) (m (r*N + j))) (r*N + j) (m (i*N + j))) m
 
 /-- swap physical columns `j` and `c` -/
 def swapCols {α : Type} (N : Nat) (m : Nat → α) (j c : Nat) : Nat → α :=
-  forUp N (fun i m => let e := m (i*N + j); fset (fset m (i*N + j) (m (i*N + c))) (i*N + c) e) m
+  forUp N (fun i m => fset (fset m (i*N + j) (m (i*N + c))) (i*N + c) (m (i*N + j))) m
 
 /-- ```
     for (i=0; i<N; i++)
